@@ -93,7 +93,7 @@ Section Check.
     | CInit _ mode hz height p =>
         Bool.eqb (is_panic (initialise_front fx (mode_of mode) hz height (@Err unit))) p
     | CBisect _ limit gpb g reads =>
-        match bisect (fun (st : unit) mid => (st, Ok (Some (g <=? mid)))) 65 Checked gpb tt 21000 limit 0 with
+        match bisect (fun (st : unit) mid => (st, Ok (Some (g <=? mid)))) 65 fx Checked gpb tt 21000 limit 0 with
         | Some (_, Ok (g', it)) => (g' =? g) && (it + 2 =? reads)
         | _ => false
         end
